@@ -49,7 +49,9 @@ class PrefixPart:
         return None
 
 
-_comment = r'#[^\n\r\f]*'
+# A comment runs to the end of the line like in the tokenizer, only form feeds
+# directly before the line end are separate parts.
+_comment = r'#(?:[^\n\r]*[^\n\r\f])?'
 _backslash = r'\\\r?\n|\\\r'
 _newline = r'\r?\n|\r'
 _form_feed = r'\f'
